@@ -71,6 +71,28 @@ SymTMTie(b, Jn, n) ==
     b >= 1 /\ \E j \in 1..n : LET sc == SymSort(Col(Jn, j)) IN
                                  sc[b] = sc[b + 1] \/ sc[Len(Jn) - b] = sc[Len(Jn) - b + 1]
 
+\* GradDrop (sign dropout), column by column.  Purity of column c: P = (abs + sum) / (2 abs) with sum / abs the sum of
+\* the entries / of their absolute values (no purity on an all-zero column: 0 / 0).  A column keeps its positive
+\* entries when f(P) > U and its negative entries when f(P) < U (U a uniform draw in [0, 1)); row r contributes its
+\* entry in full when its sign is kept, else the leaked share leak_r = L[r] / 4.
+\*   DETERMINISTIC configurations: purity functions with values in {0, 1} - f(P) = 1: "pos" whatever U, f(P) = 0:
+\*   "neg" whatever U > 0.  "ge": f(P) = [P >= 1/2] (P >= 1/2 iff sum >= 0), "gt": f(P) = [P > 1/2].
+\*   RANDOMISED configurations (identity, any increasing f with f(0) = 0, f(1) = 1): a sign-pure column is decided
+\*   (P = 1: "pos", P = 0: "neg"), a mixed column is one of the two candidates "pos" / "neg".
+SymGDSum(Jn, c) == SumSeq(Col(Jn, c))
+SymGDAbs(Jn, c) == SumSeq([r \in 1..Len(Jn) |-> Abs(Jn[r][c])])
+SymGDKeep(f, Jn, c) == IF SymGDAbs(Jn, c) = 0 THEN "none"
+                       ELSE IF f = "ge" THEN (IF SymGDSum(Jn, c) >= 0 THEN "pos" ELSE "neg")
+                       ELSE (IF SymGDSum(Jn, c) > 0 THEN "pos" ELSE "neg")
+SymGDKind(Jn, c) == IF SymGDAbs(Jn, c) = 0 THEN "zero"
+                    ELSE IF SymGDSum(Jn, c) = SymGDAbs(Jn, c) THEN "pos"
+                    ELSE IF SymGDSum(Jn, c) = 0 - SymGDAbs(Jn, c) THEN "neg" ELSE "mixed"
+SymGDCoef(l, x, ch) == IF (ch = "pos" /\ x > 0) \/ (ch = "neg" /\ x < 0) THEN 4 ELSE l
+SymGDCoord(L, Jn, den, c, ch) ==
+    Frac(SumSeq([r \in 1..Len(Jn) |-> SymGDCoef(L[r], Jn[r][c], ch) * Jn[r][c]]), 4 * den)
+SymGDVal(f, L, Jn, den, n)   == [c \in 1..n |-> SymGDCoord(L, Jn, den, c, SymGDKeep(f, Jn, c))]
+SymGDCand(ch, L, Jn, den, n) == [c \in 1..n |-> SymGDCoord(L, Jn, den, c, ch)]
+
 \* integer square root, and Krum on the integer squared-distance matrix with score intervals
 RECURSIVE SymIsqrtB(_, _, _)
 SymIsqrtB(x, lo, hi) == IF lo = hi THEN lo
